@@ -144,7 +144,7 @@ def execute(record, trace=False):
             writers = [SchedWriter(s, a["name"], a["txs"], own_process=a.get("own_process", True))
                        for a in record["actors"]]
             dl = s.run_actors(writers)
-            st = dict(s.stats)
+            st = s.full_stats()
             st.update(s.k.counters)
             st["events"] = s.k.seq
             st["switches"] = s.k.switches
